@@ -101,6 +101,14 @@ def main():
         clean_repo()
     d = "/verif/seeded/" + sid
     os.makedirs(d, exist_ok=True)
+    # keep the result of the FIRST evaluation (before any check was extended because of this seed)
+    try:
+        prev = json.load(open(d + "/meta.json"))
+        meta["first_detected_by"] = prev.get("first_detected_by", prev.get("detected_by", []))
+        meta["first_evaluated_at"] = prev.get("first_evaluated_at", prev.get("at"))
+    except Exception:
+        meta["first_detected_by"] = meta.get("detected_by", [])
+        meta["first_evaluated_at"] = meta.get("at")
     shutil.copy(patch, d + "/patch.diff")
     shutil.copy(demo, d + "/" + os.path.basename(demo_dst))
     json.dump(meta, open(d + "/meta.json", "w"), indent=1)
